@@ -129,7 +129,18 @@ impl HeaderPrefix {
         max_table_size: usize,
     ) -> Result<(usize, usize), ParseError> {
         if max_table_size == 0 {
-            return Ok((0, 0));
+            // Without a dynamic table the only valid Required Insert Count is 0, and the
+            // Base (Required Insert Count - Delta Base - 1 when the sign bit is set) cannot
+            // be negative. A non-zero count is handed back so that callers refuse the
+            // section for its missing references.
+            if self.sign_negative {
+                return Err(ParseError::InvalidBase(
+                    (self.encoded_insert_count as isize)
+                        .wrapping_sub(self.delta_base as isize)
+                        .wrapping_sub(1),
+                ));
+            }
+            return Ok((self.encoded_insert_count, 0));
         }
 
         // 4.5.1.1. Required Insert Count
